@@ -1,8 +1,9 @@
 import Kurbo.OpsKernel
+import Kurbo.OpsPath
 open Kurbo Kurbo.Driver
 
 def tables (K : Type) [Scalar K] [Codec K] : List (String → Option (Rd String)) :=
-  [opsKernel (K := K)]
+  [opsKernel (K := K), opsPath (K := K)]
 
 def runLine (K : Type) [Scalar K] [Codec K] (line : String) : String :=
   let toks := (line.trimAscii.toString.splitOn " ").filter (· ≠ "")
